@@ -766,3 +766,62 @@ impl<'a> Packet<'a> {
         Ok(Packet::Connected(ConnectedPacket { ack: ack, token: token, type_: type_ }))
     }
 }
+
+// ---------------------------------------------------------------------------------------------
+// C06: Close control message around the 127-byte reason limit. A datagram whose reason field is
+// longer than the protocol's limit (or has its terminator late or missing) is accepted with the
+// reason cut at the limit; what was accepted can be written again and reads back equal.
+
+fn close_reason_boundary<const N: usize, const T: usize>(hint: bool) {
+    // T = HEADER_SIZE + 1 + N
+    let body: [u8; N] = kani::any();
+    let ack: u16 = kani::any();
+    kani::assume(ack >> SEQUENCE_BITS == 0);
+    let mut data = [0u8; T];
+    data[0] = (PACKETFLAG_CONTROL << 4) | (ack >> 8) as u8;
+    data[1] = ack as u8;
+    data[2] = 0;
+    data[3] = CTRLMSG_CLOSE;
+    let mut i = 0;
+    while i < N {
+        data[HEADER_SIZE + 1 + i] = body[i];
+        i += 1;
+    }
+    let mut w = WMask(0);
+    let r = Packet::read_panic_on_decompression(&mut w, &data[..], Some(hint));
+    match r {
+        Ok(Packet::Connected(cp)) => {
+            if let ConnectedPacketType::Control(ControlPacket::Close(reason)) = cp.type_ {
+                // within the protocol limit, NUL-free, a prefix of the reason field
+                assert!(reason.len() <= CTRLMSG_CLOSE_REASON_LENGTH);
+                assert!(nul_free(reason));
+                assert!(inside(reason, &data[..]));
+                let mut out = [0u8; 160];
+                let b = cp.write(&mut out[..]).unwrap();
+                rt_check_connected_noscratch(&cp, b, hint);
+                kani::cover!(reason.len() == CTRLMSG_CLOSE_REASON_LENGTH);
+                kani::cover!(reason.len() < 100);
+            } else {
+                assert!(false);
+            }
+        }
+        Ok(_) => assert!(false),
+        Err(_) => {}
+    }
+}
+
+#[kani::proof]
+#[kani::unwind(140)]
+#[kani::stub(libtw2_huffman::Huffman::compress_impl_unsafe, libtw2_huffman::Huffman::verif_compress_never)]
+fn c06_close06_reason_boundary_130() {
+    // reason field of 130 bytes (no token): terminator anywhere or nowhere
+    close_reason_boundary::<130, 134>(false);
+}
+
+#[kani::proof]
+#[kani::unwind(140)]
+#[kani::stub(libtw2_huffman::Huffman::compress_impl_unsafe, libtw2_huffman::Huffman::verif_compress_never)]
+fn c06_close06_reason_boundary_127() {
+    // reason field of exactly 127 bytes
+    close_reason_boundary::<127, 131>(false);
+}
